@@ -902,6 +902,10 @@ def malformed_battery():
         ("A B\n(random(1,2)) 1\n", "wrong number of arguments for random"),
         ("A B\n9223372036854775808 1\n", "literal does not fit in 64 bits"),
         ("A B\n0x10000000000000000 1\n", "hex literal does not fit"),
+        ("A B\nloop(i,2)\nlet n = 0;\nwhile(n < 2)\nlet n = n + 1;\n1 1\nend loop\nend while\n", "crossed terminators: loop closed inside the while"),
+        ("A B\nlet n = 0;\nwhile(n < 1)\nloop(i,2)\nlet n = n + 1;\n1 1\nend while\nend loop\n", "crossed terminators: while closed inside the loop"),
+        ("A B\nloop(i,2)\nwhile(0)\n1 1\nend loop\nend while", "crossed terminators, no trailing newline"),
+        ("A B\nloop(i,1)\nwhile(0)\nloop(j,1)\n1 1\nend loop\nend loop\nend while\n", "crossed terminators three deep"),
         ("A B\n0b1%s 1\n" % ("0" * 64), "binary literal of 65 digits does not fit"),
         ("A B\n1 0B1%s\n" % ("0" * 63), "binary literal 2^63 does not fit"),
         ("A B\n1 (0b1%s)\n" % ("01" * 40), "long binary literal in an expression"),
@@ -1245,6 +1249,29 @@ def dig_battery():
     t5 = ("cr-blank-first", "\r\n\r\nA Y\r\n1 1\r\n")
     b.append(Scenario(dig_xml(pins, [t5]), [], mode="dig", load="0", default_answer=[0, 0],
                       expect={"dig": "ok", "load": "ok", "tests": [t5], "lines": [4]}, note="CRLF blank lines before the header of a document test"))
+    # sixth round: test headers laid out with tabs, several blanks, CR, leading blank lines - the document loads all the same
+    for hdr_, what in (("A\tB\tY", "tabs"), ("A   B \t Y", "several blanks"), ("\n\n  A B Y", "leading blank lines and blanks"),
+                       ("A B Y  \t", "trailing blanks"), ("A B Y\r", "CR before the line break")):
+        tt = ("laid-out", hdr_ + "\n1 0 1\n")
+        b.append(Scenario(dig_xml(pins, [tt]), [], mode="dig", load="0", default_answer=[0, 0],
+                          expect={"dig": "ok", "load": "ok", "tests": [tt], "row_inputs": [["1", "0", "0", "Z"]]},
+                          note="test header laid out with %s" % what))
+    # sixth round: signals keep document order whatever is read back (three read-back inputs)
+    pins4 = [("In", "A", 4, 3), ("In", "B", None, None), ("Out", "Y", 8, None), ("Clock", "CLK", None, None), ("In", "D", 8, "Z"), ("Out", "Q", None, None), ("In", "E", 2, 1)]
+    sigs4 = ["A:4:bidir:3", "B:1:bidir:0", "CLK:1:in:0", "D:8:bidir:Z", "E:2:bidir:1", "Y:8:out", "Q:1:out"]
+    rb = ("rb4", "A A_out B B_out D D_out E E_out Y\n1 X 0 X 2 X 1 X X\n")
+    b.append(Scenario(dig_xml(pins4, [rb]), [], mode="dig", load="0", default_answer=[0] * 6,
+                      expect={"dig": "ok", "signals": sigs4, "load": "ok"}, note="four read-back inputs: signals stay in document order (inputs, then outputs)"))
+    # sixth round: a name is a label, never a position; `<x>_out` alone in a header still reads back input <x>
+    for nm in ("0", "1", "02", "00", "+1"):
+        b.append(Scenario(dig_xml(pins, [t1, t2]), [], mode="dig", load="name:" + nm.encode().hex(), default_answer=[0, 0],
+                          expect={"dig": "ok", "load": "err"}, note="numeric name %r matches no label: unknown, not test number %s" % (nm, nm)))
+    b.append(Scenario(dig_xml(pins, [("1", "A Y\n3 3\n"), ("0", "A Y\n2 2\n")]), [], mode="dig", load="name:" + "0".encode().hex(), default_answer=[0, 0],
+                      expect={"dig": "ok", "load": "ok", "row_inputs": [["2", "0", "0", "Z"]]}, note="numeric labels are labels: name 0 selects the test labelled 0"))
+    b.append(Scenario(dig_xml(pins, [("listen", "D_out Y\nX 1\n")]), [], mode="dig", load="0", default_answer=[0, 0, 0],
+                      expect={"dig": "ok", "signals": sigs_b, "load": "ok"}, note="header with D_out but no D column: D is read back, hence bidirectional"))
+    b.append(Scenario(dig_xml(pins, [("plain", "A Y\n1 1\n"), ("listen", "A D_out\n1 X\n")]), [], mode="dig", load="1", default_answer=[0, 0, 0],
+                      expect={"dig": "ok", "signals": sigs_b, "load": "ok"}, note="D_out without D in the second test only"))
     # sixth round: a document test that does not parse - the error's labels lie inside the source attached to it
     for eol in ("\r\n", "\n"):
         for body, what in (("A Y%s1 1%sloop(i,2)%s1 1%s" % ((eol,) * 4), "loop left open at the end"),
@@ -1355,6 +1382,18 @@ LAYOUT_PROGRAMS = {
         ["(", "a", "|", "1", ")", "(", "a", "<=", "3", ")", "(", "a", ">>", "1", ")"],
         ["(", "a", "=", "6", ")", "(", "a", "<", "7", ")", "(", "0", "-", "a", "*", "2", "+", "100", ")"],
         ["(", "ite", "(", "0", ",", "1", ",", "ite", "(", "1", ",", "2", ",", "3", ")", ")", ")", "0", "0"],
+    ],
+    "short-rows": [[str(k % 2), "1", "X"] for k in range(14)] + [["loop", "(", "i", ",", "2", ")"], ["0", "0", "X"], ["end", "loop"], ["1", "1", "X"], ["0", "1", "X"]],
+    "digit-strings": [
+        ["10", "16", "2"],
+        ["8", "10", "16"],
+        ["(", "10", "+", "16", ")", "(", "2", "*", "8", ")", "(", "16", "-", "10", ")"],
+        ["let", "a", "=", "16", ";"],
+        ["(", "a", "+", "10", ")", "11", "17"],
+        ["3", "9", "17"],
+        ["loop", "(", "i", ",", "2", ")"],
+        ["(", "i", "+", "16", ")", "10", "2"],
+        ["end", "loop"],
     ],
     "literals": [
         ["0", "1", "2"],
@@ -1468,7 +1507,19 @@ def layout_battery():
         for cm in (" # the last row", "#1 2 3", " # 3"):
             b.append(sc(name, layout_render(lines, last_eol=False), layout_render(lines[:-1] + [lines[-1] + [cm]], "plain", last_eol=False).replace(" " + cm, cm),
                         "comment %r on the last line, no newline at the end" % cm))
-        if name in ("literals", "control", "calls", "rejected-literal", "rejected-literal-2"):
+        if name in ("literals", "digit-strings", "control", "calls", "rejected-literal", "rejected-literal-2"):
+            # sixth round: every literal in a radix of its own (cycling), so that one program holds equal digit strings
+            # with different meanings: 10, 0x10, 0b10, 010
+            for shift in range(4):
+                cyc = ("dec", "hex", "bin", "oct")
+                cnt = [0]
+
+                def mix(t):
+                    if not t.isdigit():
+                        return t
+                    cnt[0] += 1
+                    return _radix(t, cyc[(cnt[0] + shift) % 4])
+                b.append(sc(name, base, layout_render([[mix(t) for t in l] for l in lines]), "integer literals in mixed radices (phase %d)" % shift))
             for how in ("hex", "HEX", "hex0", "bin", "BIN", "bin0", "oct"):
                 b.append(sc(name, base, layout_render([[_radix(t, how) for t in l] for l in lines]), "integer literals as %s" % how))
     return b
